@@ -148,6 +148,15 @@ class Enumerator:
             return self._unreachable(v, ctrls)
         if k == 'unreachable':
             return self._unreachable(vals, ctrls)
+        if k == 'deadcall':
+            # a call of ANOTHER enumerated function of the batch, allowed in unreachable code only (it is never executed: what matters is
+            # that the translator still decodes the instruction - its immediate is a byte that is also an opcode)
+            if not fr[4]:
+                return None
+            v = self._pops(vals, fr, s.pops)
+            if v is None:
+                return None
+            return v + s.pushes, ctrls
         raise ValueError(k)
 
     def closable(self, vals, ctrls):
@@ -282,7 +291,7 @@ def sigma_ctl():
 
 
 def sigma_mid():
-    """23 symbols used INSIDE fixed contexts (see contexts()): signature (i32 i32)->i32, no extra locals, import 0 = mark"""
+    """25 symbols used INSIDE fixed contexts (see contexts()): signature (i32 i32)->i32, no extra locals, import 0 = mark"""
     S = []
     S.append(Sym('i32.const', 'simple', (), ('i',), 'i', 'const'))
     S.append(Sym('drop', 'drop', enc=DROP))
@@ -306,6 +315,9 @@ def sigma_mid():
     S.append(Sym('unreachable', 'unreachable', enc=UNREACHABLE))
     S.append(Sym('mark', 'simple', ('i',), ('i',), enc=call(0)))
     S.append(Sym('dec0', 'simple', (), ('i',), enc=local_get(0) + i32_const(1) + op(0x6b) + local_tee(0)))
+    # dead calls whose function index is the byte of a structural opcode: 5 = else, 11 = end (functions 5 and 11 of the batch have this signature)
+    S.append(Sym('call 5 (dead)', 'deadcall', ('i', 'i'), ('i',), enc=call(5)))
+    S.append(Sym('call 11 (dead)', 'deadcall', ('i', 'i'), ('i',), enc=call(11)))
     return S, 'ii', '', 'i'
 
 
